@@ -49,6 +49,9 @@ let ev_s = function
   | EvSwap (v, o, a, r) -> Printf.sprintf "swap %s %s a=%s r=%s" (var_s v) (ord_s o) (n_s a) (n_s r)
   | EvCas (v, o, f, a, b, r, k) ->
       Printf.sprintf "cas %s %s/%s a=%s b=%s r=%s ok=%d" (var_s v) (ord_s o) (ord_s f) (n_s a) (n_s b) (n_s r) (if k then 1 else 0)
+  | EvCasW (v, o, f, a, b, r, k) ->
+      Printf.sprintf "casw %s %s/%s a=%s b=%s r=%s ok=%d" (var_s v) (ord_s o) (ord_s f) (n_s a) (n_s b) (n_s r) (if k then 1 else 0)
+  | EvFsub (v, o, a, r) -> Printf.sprintf "fsub %s %s a=%s r=%s" (var_s v) (ord_s o) (n_s a) (n_s r)
   | EvFor (v, o, a, r) -> Printf.sprintf "for %s %s a=%s r=%s" (var_s v) (ord_s o) (n_s a) (n_s r)
   | EvFand (v, o, a, r) -> Printf.sprintf "fand %s %s clr=%s r=%s" (var_s v) (ord_s o) (n_s a) (n_s r)
   | EvPark -> "park"
@@ -59,7 +62,7 @@ let ev_s = function
 let shape = function
   | EvLoad (v, _, _) -> "load " ^ (match v with VNode _ -> "node" | v -> var_s v)
   | EvStore (v, _, _) -> "store " ^ (match v with VNode _ -> "node" | v -> var_s v)
-  | EvSwap _ -> "swap" | EvCas _ -> "cas" | EvFor _ -> "for" | EvFand _ -> "fand"
+  | EvSwap _ -> "swap" | EvCas _ -> "cas" | EvCasW _ -> "casw" | EvFsub _ -> "fsub" | EvFor _ -> "for" | EvFand _ -> "fand"
   | EvPark -> "park" | EvUnpark _ -> "unpark" | EvYield -> "yield" | EvSpin -> "spin"
 
 (* !mask operands of fetch_and: 2^64-1-clr *)
@@ -83,9 +86,9 @@ let res_s = function
 
 (* node variables are named wait_queue.state#k in order of first access; the first access of
    a node is always its owner's rearm store *)
-let to_mev (nodes : (string, int) Hashtbl.t) (e : raw) : mev =
+let to_mev (statevar : string) (nodes : (string, int) Hashtbl.t) (e : raw) : mev =
   let var () =
-    if e.var = "mutex.state#0" then VState
+    if e.var = statevar then VState
     else if e.var = "wait_queue.locked#0" then VLocked
     else if String.length e.var > 17 && String.sub e.var 0 17 = "wait_queue.state#" then begin
       (if not (Hashtbl.mem nodes e.var) then Hashtbl.add nodes e.var e.tid);
@@ -98,7 +101,9 @@ let to_mev (nodes : (string, int) Hashtbl.t) (e : raw) : mev =
   | "load" -> EvLoad (var (), o (), num e.r)
   | "store" -> EvStore (var (), o (), num e.a)
   | "swap" -> EvSwap (var (), o (), num e.a, num e.r)
-  | "cas" | "casw" -> EvCas (var (), o (), f (), num e.a, num e.b, num e.r, e.ok)
+  | "cas" -> EvCas (var (), o (), f (), num e.a, num e.b, num e.r, e.ok)
+  | "casw" -> EvCasW (var (), o (), f (), num e.a, num e.b, num e.r, e.ok)
+  | "fsub" -> EvFsub (var (), o (), num e.a, num e.r)
   | "for" -> EvFor (var (), o (), num e.a, num e.r)
   | "fand" -> EvFand (var (), o (), n_of_int (clr_of e.a), num e.r)
   | "park" -> EvPark
@@ -112,7 +117,7 @@ let run_mutex (threads : string list list) (res : string) (evs : raw list) : str
   let nthr = Array.length progs in
   let progf (t : nat) = let i = int_of_nat t in if i < nthr then progs.(i) else [] in
   let nodes = Hashtbl.create 16 in
-  let mevs = Array.of_list (List.map (fun e -> (e.tid, to_mev nodes e)) evs) in
+  let mevs = Array.of_list (List.map (fun e -> (e.tid, to_mev "mutex.state#0" nodes e)) evs) in
   let n = Array.length mevs in
   (* next event index of the same thread *)
   let nxt = Array.make n (-1) in
@@ -190,9 +195,102 @@ let skel_lines pfx table =
           let os = function Some x -> ord_s x | None -> "-" in
           Printf.sprintf "%s %s %s %s" (svar_s v) (sop_s o) (os a) (os b)) rows)) table
 
+
+(* ------------------------------------------------------------------ rwlock *)
+let rw_op = function
+  | "r" | "rh" -> ROLock RD | "w" | "wh" -> ROLock WR | "tr" -> ROTry RD | "tw" -> ROTry WR
+  | "ar" -> ROAsync RD | "aw" -> ROAsync WR | "apr" -> ROPoll RD | "apw" -> ROPoll WR
+  | "ad" -> RODropFut | "yw" -> ROWait
+  | o -> failwith ("bad rwlock op " ^ o)
+
+let rres_s = function
+  | RRL RD -> "R" | RRL WR -> "W" | RRT (RD, true) -> "TR1" | RRT (RD, false) -> "TR0"
+  | RRT (WR, true) -> "TW1" | RRT (WR, false) -> "TW0" | RRA RD -> "AR" | RRA WR -> "AW"
+  | RRP true -> "P1" | RRP false -> "P0"
+
+let run_rwlock (threads : string list list) (res : string) (evs : raw list) : string =
+  let progs = Array.of_list (List.map (fun ops -> List.map rw_op ops) threads) in
+  let nthr = Array.length progs in
+  let progf (t : nat) = let i = int_of_nat t in if i < nthr then progs.(i) else [] in
+  let nodes = Hashtbl.create 16 in
+  let mevs = Array.of_list (List.map (fun e -> (e.tid, to_mev "rwlock.state#0" nodes e)) evs) in
+  let n = Array.length mevs in
+  let nxt = Array.make n (-1) in
+  let last = Hashtbl.create 8 in
+  for i = n - 1 downto 0 do
+    let (t, _) = mevs.(i) in
+    (match Hashtbl.find_opt last t with Some j -> nxt.(i) <- j | None -> ());
+    Hashtbl.replace last t i
+  done;
+  let s = ref (rwinit progf) in
+  let tr = ref [] in
+  let failed = ref None in
+  let choices = [RGo; RAgain; RSpur] in
+  (try
+     for i = 0 to n - 1 do
+       let (ti, e) = mevs.(i) in
+       let t = nat_of_int ti in
+       let cands = List.filter_map (fun c ->
+           match rwstep !s t c with
+           | Some (s', e') when mev_eqb e e' -> Some (c, s')
+           | _ -> None) choices in
+       let good (_, s') =
+         nxt.(i) < 0 ||
+         (let (_, en) = mevs.(nxt.(i)) in
+          List.exists (fun c -> match rwpeek s' t c with Some e'' -> shape e'' = shape en | None -> false) choices)
+       in
+       let pick = match List.filter good cands with x :: _ -> Some x | [] -> (match cands with x :: _ -> Some x | [] -> None) in
+       match pick with
+       | Some (c, s') -> tr := ((t, c), e) :: !tr; s := s'
+       | None ->
+           let exps = List.sort_uniq compare (List.filter_map (fun c -> match rwpeek !s t c with Some a -> Some (ev_s a) | None -> None) choices) in
+           let exp = if exps = [] then "(thread not enabled)" else String.concat " | " exps in
+           failed := Some (Printf.sprintf "reject at %d: model expected t%d %s, trace has t%d %s" i ti exp ti (ev_s e));
+           raise Exit
+     done
+   with Exit -> ());
+  match !failed with
+  | Some m -> m
+  | None ->
+      (match rw_replay_trace progf (List.rev !tr) with
+       | Inl (Some sf) ->
+           let per = Array.make nthr [] in
+           List.iter (fun (t, r) -> let i = int_of_nat t in if i < nthr then per.(i) <- rres_s r :: per.(i)) sf.rresults;
+           let mres = String.concat "/" (Array.to_list (Array.map (fun l -> if l = [] then "-" else String.concat "," (List.rev l)) per)) in
+           if mres = res then Printf.sprintf "ok %d res=%s" n res
+           else Printf.sprintf "reject results: model res=%s, implementation res=%s" mres res
+       | Inl None -> "reject: replay returned no state"
+       | Inr k -> Printf.sprintf "reject at %d: extracted replay refused the step" (n - 1 - int_of_nat k))
+
+let rfn_s = function
+  | RfTryAcqR -> "try_acquire_read" | RfTryAcqW -> "try_acquire_write" | RfRead -> "read" | RfReadSlow -> "read_slow"
+  | RfReadAsync -> "read_async" | RfWrite -> "write" | RfWriteSlow -> "write_slow" | RfWriteAsync -> "write_async"
+  | RfTryRead -> "try_read" | RfTryWrite -> "try_write" | RfUnlockR -> "unlock_read" | RfUnlockW -> "unlock_write"
+  | RfFixFlags -> "fix_flags" | RfWakeWaiters -> "wake_waiters" | RfRGuardDrop -> "ReadGuard::drop"
+  | RfWGuardDrop -> "WriteGuard::drop" | RfRFutPoll -> "ReadFuture::poll" | RfRFutFinish -> "ReadFuture::finish_node"
+  | RfRFutDrop -> "ReadFuture::drop" | RfWFutPoll -> "WriteFuture::poll" | RfWFutFinish -> "WriteFuture::finish_node"
+  | RfWFutDrop -> "WriteFuture::drop" | RfListLock -> "WaitList::lock" | RfRearm -> "rearm"
+  | RfMarkWoken -> "take_and_mark_woken" | RfWake -> "Waiter::wake"
+
+(* inside a future's poll the callee is just `finish_node` in the source text *)
+let rcall_s = function
+  | RfRFutFinish | RfWFutFinish -> "finish_node"
+  | f -> rfn_s f
+
+let rsop_s = function
+  | RsLoad -> "load" | RsStore -> "store" | RsCas -> "cas" | RsCasWeak -> "casw" | RsFor -> "fetch_or"
+  | RsFand -> "fetch_and" | RsFsub -> "fetch_sub" | RsPark -> "park" | RsYield -> "yield_now" | RsCall f -> "call:" ^ rcall_s f
+
+let rskel_lines () =
+  List.map (fun (f, rows) ->
+      "rwlock." ^ rfn_s f ^ " := " ^
+      String.concat " ; " (List.map (fun (((v, o), a), b) ->
+          let os = function Some x -> ord_s x | None -> "-" in
+          Printf.sprintf "%s %s %s %s" (svar_s v) (rsop_s o) (os a) (os b)) rows)) rskeleton
+
 let run (toks : string list) : string =
   match toks with
-  | ["--skeleton"] -> String.concat " || " (skel_lines "mutex." skeleton)
+  | ["--skeleton"] -> String.concat " || " (skel_lines "mutex." skeleton @ rskel_lines ())
   | kind :: _ ->
       (match split_on "||" toks with
        | [scen; body] ->
@@ -204,6 +302,7 @@ let run (toks : string list) : string =
              | _ -> failwith "bad trace body" in
            let evs = List.filter_map (function [] -> None | l -> Some (parse_event l)) (split_on ";" evtoks) in
            if kind = "mutex" then run_mutex threads res evs
+           else if kind = "rwlock" then run_rwlock threads res evs
            else failwith ("unknown lock kind " ^ kind)
        | _ -> failwith "case must be <scenario> || <trace>")
   | [] -> failwith "empty case"
